@@ -134,6 +134,14 @@ theorem C20_network_window_partial (Lmax : Nat) (ops : List NOp) (s : NRun)
   rw [Nat.mul_add, Nat.mul_one]
   omega
 
+/-- **No request is lost or served twice, also across limit changes.** Over every history of requests, wake-ups and
+`set_*_speed_limit` calls on the whole network of limiter objects: the requests granted so far, together with the
+requests that hold or wait for the lock of some limiter object (replaced objects included), are a permutation of the
+requests made. A request pending on a replaced limiter is handed on — never dropped, never duplicated — and by
+`C20_bounded_wait` it is then served on the current object within a bounded number of wake-ups. -/
+theorem C20_no_request_lost (ops : List NOp) (s : NGhost) (h : s.Inv) : (grun s ops).Inv :=
+  grun_inv ops s h
+
 /-- **Bytes follow grants.** Over any history of grants and reads on any number of file connections, counted from
 any moment on: the bytes moved since then are at most the tokens granted since then plus the tokens the connections
 were holding at that moment — at most one grant per connection (`gmax` = 128 B under a limit, 8192 B if the grant
@@ -190,6 +198,18 @@ example : (nrun { net := { olds := [], cur := .limited { lim := { L := 2048, buc
                             now := 2048 }, granted := 0 }
     [.poll 0 0, .poll 1 0, .setLimit 1, .poll 2 0, .poll 0 11, .poll 3 0, .setLimit 0, .poll 3 5, .setLimit 2, .poll 1 11]).granted
       ≤ 2048 + 2048 := by decide
+-- three requests at 1 KiB/s on an empty bucket, a limit change while two of them are pending, their hand-over:
+-- an instance of the invariant computed by the kernel (4 requests made = granted + still pending)
+def exGhost : NGhost :=
+  { net := { olds := [], cur := .limited { lim := { L := 1024, bucket := 0, last := 100 }, holder := none, queue := [] }, now := 100 },
+    arrivals := [], served := [] }
+def exOps : List NOp := [.poll 0 0, .poll 1 0, .poll 2 0, .setLimit 2, .poll 3 200, .poll 0 11, .poll 1 11, .poll 2 300]
+-- requests 0,1,2 are pending on the 1 KiB/s object when the limit becomes 2 KiB/s; 3 arrives at the new object and is served
+-- first; when 0's sleep ends, 0,1,2 move on in this order; 1 asks again; in the end everybody has been served
+example : (grun exGhost exOps).arrivals = [0, 1, 2, 3, 1] ∧ (grun exGhost exOps).served = [3, 0, 1, 2, 1] ∧
+    pendingAll (grun exGhost exOps).net.olds (grun exGhost exOps).net.cur = [] := by decide
+example : ({ net := { olds := [], cur := .unlimited 0 0, now := 0 }, arrivals := [], served := [] } : NGhost).Inv := by
+  simp [NGhost.Inv, pendingAll, NObj.waiting]
 example : NLimitsWithin 4096 [.poll 0 0, .setLimit 1, .poll 2 0, .setLimit 0, .setLimit 4] := by simp [NLimitsWithin]; decide
 example : (xrun { holding := [0, 0, 0], granted := 0, moved := 0 }
     [.grant 0 128, .grant 2 8192, .move 2 100, .move 0 128, .grant 0 128]).moved = 228 := by decide
